@@ -29,8 +29,9 @@ def cases(run: Run):
             "add_at": [3, 4] if steps >= 5 else [1, 2],
             "dt": rng.choice([60, 60, 30]), "steps": steps, "ns": rng.randint(1, 2), "nt": rng.randint(2, 3), "prop": rng.choice(["two_body", "special_perturbations"]),
             "start_sec": rng.choice([0, 17]), "seed": rng.randint(1, 10**6), "impulse": rng.random() < 0.6,
-            "variants": rng.sample(["truth_only", "greedy", "noise_seed", "out2", "split", "order", "extra_target", "extra_sensor", "fewer_targets", "random_decision", "filter_model", "filter_model", "no_additions",
-                                    "drop_first", "drop_first", "reorder", "id_reused", "id_reused"], run.n(7, 10)),
+            # the variants that found something in the past are always there; the others are sampled
+            "variants": ["filter_model", "drop_first"] + rng.sample(["truth_only", "greedy", "noise_seed", "out2", "split", "order", "extra_target", "extra_sensor", "fewer_targets", "random_decision",
+                                                                      "no_additions", "reorder", "id_reused", "id_reused"], run.n(5, 8)),
             "additions": rng.choice([2, 2, 0, 1]),
             # radiation pressure on, and every target with its own mass and area: a satellite's truth must not depend on which other satellites exist
             "srp": rng.random() < 0.6, "fresh": rng.choice(["drop_first", "drop_first", "reorder", "base"]),
